@@ -387,6 +387,16 @@ Theorem C17_requeuer_same_object_redelivery_refuted :
   /\ snd (redeliver w_dec w_atoi w_itoa w_rk FreshCopy w_rq 1 w_41 w_fail_then_ok) = w_41.
 Proof. exact same_object_counts_attempts. Qed.
 
+(** FanOut with n subscribers per topic: over a whole stream (several topics, faults at any
+    attempt index) the subscribers receive n copies of every eventually-accepted message on its
+    own topic, in stream order, and nothing else *)
+Theorem C17_stream_fanout_copies : forall (dec : N -> option envelope) (atoi : N -> option Z) (itoa : Z -> N) (rk : N)
+    (n : nat) (items : list item),
+  fanout_stream_copies dec atoi itoa rk n items
+  = flat_map (fun it => repeat (it_src it, gochan_copy (it_msg it)) n)
+             (filter (eventually_accepted dec atoi itoa rk CFanOut) items).
+Proof. exact fanout_stream_copies_spec. Qed.
+
 Print Assumptions C17_redelivery_original_untouched.
 Print Assumptions C17_redelivery_ack_only_last.
 Print Assumptions C17_redelivery_accepted_at_most_once.
@@ -400,6 +410,7 @@ Print Assumptions C17_over_gochannel_at_most_once.
 Print Assumptions C17_over_gochannel_acked_was_relayed.
 Print Assumptions C17_over_gochannel_offered_again.
 Print Assumptions C17_requeuer_same_object_redelivery_refuted.
+Print Assumptions C17_stream_fanout_copies.
 
 (** the GLOBAL codec law (for every envelope) is satisfiable, also with a sanitiser that alters a
     string — so the hypotheses of C17_forwarder_non_utf8_refuted hold together somewhere *)
